@@ -1586,6 +1586,22 @@ func ruleBorderCover(c *Ctx, rule string, fns []*ssa.Function, needRow, needCol 
 									whole = true
 								}
 							}
+							// or the offset runs beside a row counter that the loop tests: for i, p := 1, c; i < r; i, p = i+1, p+c
+							if bo, ok := ifi.Cond.(*ssa.BinOp); ok && bo.Op == token.LSS && !whole {
+								if cnt, ok := bo.X.(*ssa.Phi); ok && cnt.Block() == lp.head && cnt != phi && (bo.Y == rVal || linOf(bo.Y, nil).equal(rL)) {
+									from1, step1 := false, false
+									for i, pr := range cnt.Block().Preds {
+										e := cnt.Edges[i]
+										if !lp.body[pr] {
+											k, ok := constIntVal(e)
+											from1 = ok && k == 1
+										} else if q, inc, ok := linearIn(e); ok && q == cnt && inc == 1 {
+											step1 = true
+										}
+									}
+									whole = from1 && step1
+								}
+							}
 						}
 						if fromC && stepC && whole {
 							col0 = append(col0, cellRange{1, rL, ia.Pos()})
